@@ -21,7 +21,9 @@ from ufl.corealg.multifunction import MultiFunction
 from ufl.domain import extract_domains, extract_unique_domain
 from ufl.form import Form
 from ufl.integral import Integral
+from ufl.pullback import SymmetricPullback
 from ufl.utils.indexflattening import flatten_multiindex, shape_to_strides
+from ufl.utils.sequences import product
 
 
 class SumDegreeEstimator(MultiFunction):
@@ -187,15 +189,27 @@ class SumDegreeEstimator(MultiFunction):
             if isinstance(op, Coefficient):
                 element = self.element_replace_map.get(element, element)
             sub_elements = element.sub_elements
-            if sub_elements and len(multiindex) == len(op.ufl_shape):
+            # NB: the components of a symmetric element are not laid out
+            # sub-element by sub-element, fall back to the whole element then.
+            if (
+                sub_elements
+                and len(multiindex) == len(op.ufl_shape)
+                and not isinstance(element.pullback, SymmetricPullback)
+            ):
                 component = flatten_multiindex(
                     [int(idx) for idx in multiindex], shape_to_strides(op.ufl_shape)
                 )
                 # Walk the sub-elements in order to find which one covers
-                # this flattened component.
+                # this flattened (physical) component. The index refers to
+                # the physical value, so count physical value sizes, which
+                # differ from the reference value sizes for e.g. Piola mapped
+                # sub-elements on manifolds or symmetric sub-elements.
+                domain = op.ufl_function_space().ufl_domain()
                 offset = 0
-                for sub_element in sub_elements:
-                    sub_size = sub_element.reference_value_size
+                for sub_domain, sub_element in zip(domain.iterable_like(element), sub_elements):
+                    sub_size = product(
+                        sub_element.pullback.physical_value_shape(sub_element, sub_domain)
+                    )
                     if component < offset + sub_size:
                         d = sub_element.embedded_superdegree
                         return self.default_degree if d is None else d
